@@ -334,6 +334,30 @@ func c13Check(ci interface{}) Verdict {
 		}
 		rowY += len(rows)
 	}
+	// slot assignment (HTML / CSS 2.1 17.5): each cell takes the first slot of its row not reserved by a
+	// cell spanning rows from above; only then can two cells share a slot (finding C09-F01)
+	for _, g := range table.Children {
+		rows := g.Box().Children
+		reserved := map[[2]int]bool{}
+		for y, row := range rows {
+			x := 0
+			for _, cell := range row.Box().Children {
+				cb := cell.Box()
+				for reserved[[2]int{x, y}] {
+					x++
+				}
+				if cb.GridX != x {
+					return Viol("grid:slot", "cell (row %d of its group, colspan %d, rowspan %d) is on column %d, the first slot of its row not reserved from above is column %d\n%s", y, cb.Colspan, cb.Rowspan, cb.GridX, x, c.HTML)
+				}
+				for dy := 1; dy < cb.Rowspan; dy++ {
+					for dx := 0; dx < cb.Colspan; dx++ {
+						reserved[[2]int{x + dx, y + dy}] = true
+					}
+				}
+				x += cb.Colspan
+			}
+		}
+	}
 	// row stacking inside a group
 	for _, g := range table.Children {
 		rows := g.Box().Children
